@@ -146,13 +146,25 @@ func execSortCase(c sortCase, _ core.Source) (res core.Result) {
 	var got []tagged
 	switch c.Via {
 	case "Array":
-		a := col.Array[tagged](n).MakeFromArray(in)
+		src := col.List[tagged](n).MakeFromArray(in)
+		a := col.Array[tagged](n).MakeFromSequence(src)
 		a.SortValuesWithRanker(rank)
 		got = a.AsArray()
+		if fmt.Sprint(src.AsArray()) != fmt.Sprint(in) {
+			res.Violation = core.Violate("C09/Array/sorted-its-source", "sorting an Array made from a List changed the List: %v -> %v", in, src.AsArray())
+			return
+		}
 	case "List":
-		l := col.List[tagged](n).MakeFromArray(in)
+		// the list is made from an Array collection, which stays a collection of its own: sorting the list
+		// is not sorting the array
+		src := col.Array[tagged](n).MakeFromArray(in)
+		l := col.List[tagged](n).MakeFromSequence(src)
 		l.SortValuesWithRanker(rank)
 		got = l.AsArray()
+		if fmt.Sprint(src.AsArray()) != fmt.Sprint(in) {
+			res.Violation = core.Violate("C09/List/sorted-its-source", "sorting a List made from an Array changed the Array: %v -> %v", in, src.AsArray())
+			return
+		}
 	case "Catalog":
 		cat := col.Catalog[int, tagged](n).Make()
 		for i, x := range in {
@@ -211,10 +223,15 @@ func execSortCase(c sortCase, _ core.Source) (res core.Result) {
 		}
 		got = x
 	case "List":
-		l := col.List[tagged](n).MakeFromArray(in)
+		src := col.Array[tagged](n).MakeFromArray(in)
+		l := col.List[tagged](n).MakeFromSequence(src)
 		l.ReverseValues()
 		x := l.AsArray()
 		l.ShuffleValues()
+		if fmt.Sprint(src.AsArray()) != fmt.Sprint(in) {
+			res.Violation = core.Violate("C09/List/reordered-its-source", "reversing and shuffling a List made from an Array changed the Array: %v -> %v", in, src.AsArray())
+			return
+		}
 		if v := checkPerm("List.ShuffleValues", l.AsArray()); v != nil {
 			res.Violation = v
 			return
